@@ -137,7 +137,8 @@ def _run_shard_subprocess(prop, spec, workdir):
     env.pop('PYTHONPATH', None)
     if spec.get('build') == 'asan':
         env.update(_asan_env(logbase))
-    timeout = spec.get('timeout', 900)
+    # generous wall-clock watchdog (its firing is inconclusive, never a verdict): three times the shard's own time budget
+    timeout = max(spec.get('timeout', 900), 3 * int(spec.get('budget_s', 0)) + 300)
     cmd = [PY, os.path.join(VERIF, 'vcheck'), prop, '--shard', spec_path, '--out', out_path]
     vglog = os.path.join(workdir, f'{name}.valgrind')
     if spec.get('valgrind'):
